@@ -50,7 +50,28 @@ fn gen_valid(r: &mut SplitMix) -> Vec<u8> {
     for _ in 0..n {
         let owner = if chance(r, 20) { " ".to_string() } else { format!("{} ", gen_name(r)) };
         let tc = pick(r, &["", "IN ", "300 ", "IN 300 ", "300 IN ", "CLASS1 ", "CH "]);
-        let rec = match r.below(20) {
+        let rec = match r.below(22) {
+            20 => {
+                // generic-form spellings: hex in several groups, over parenthesised lines, with a
+                // length that disagrees, an odd number of digits, data after a zero length, and
+                // TYPE/CLASS numbers at and beyond 16 bits or with leading zeros
+                pick(r, &[
+                    "A \\# 4 0a00 0001", "A \\# 4 ( 0a\n 00 00\n 01 )", "A \\# 4 0a0000", "A \\# 4 0a000001ff", "A \\# 4 0a00000", "A \\# 0 00", "AAAA \\# 16 20010db8 00000000 00000000 00000001",
+                    "TYPE65535 \\# 0", "TYPE65536 \\# 0", "TYPE00001 \\# 4 0a000001", "TYPE0 \\# 0", "TYPE1 \\# 3 0a0000", "TYPE16 \\# 2 0500", "TYPE6 \\# 5 0000000000",
+                    "MX \\# 3 000a00", "MX \\# 2 000a", "SRV \\# 7 00010002000300", "SRV \\# 6 000100020003", "TXT \\# 0", "TXT \\# 1 05", "HINFO \\# 1 00", "NS \\# 1 00", "NS \\# 2 c000", "CNAME \\# 3 016100 ; comment",
+                ]).to_string()
+            }
+            21 => {
+                // TTL and class fields at their limits and in both orders
+                let ttl = *pick(r, &["2147483647", "2147483648", "4294967295", "4294967296", "99999999999999999999", "0", "00000000060", "-1", "1h", "60s"]);
+                let cl = *pick(r, &["IN", "CH", "HS", "CLASS1", "CLASS65535", "CLASS65536", "CLASS01", "CLASS254", "ANY", "NONE"]);
+                // (the marker keeps the line free of a second TTL/class prefix)
+                match r.below(3) {
+                    0 => format!("\u{1}{ttl} {cl} A 192.0.2.1"),
+                    1 => format!("\u{1}{cl} {ttl} A 192.0.2.1"),
+                    _ => format!("\u{1}{ttl} TXT ttl-only"),
+                }
+            }
             16 => {
                 // RFC 3597 generic form for a *known* type: mostly the wrong length or content
                 let t = *pick(r, &["A", "AAAA", "NS", "MX", "SOA", "TXT", "SRV", "HINFO", "CNAME", "WKS", "MINFO", "PTR"]);
@@ -83,6 +104,10 @@ fn gen_valid(r: &mut SplitMix) -> Vec<u8> {
             13 => "MINFO rmail email".to_string(),
             14 => "WKS 192.0.2.1 6 25 80".to_string(),
             _ => format!("TYPE{} \\# 0", range(r, 256, 65000)),
+        };
+        let (tc, rec) = match rec.strip_prefix('\u{1}') {
+            Some(x) => (&"", x.to_string()),
+            None => (tc, rec),
         };
         if chance(r, 6) {
             t.push_str(&format!("$INCLUDE \"inc {}.zone\" sub.example.{nl}", r.below(9)));
@@ -291,7 +316,7 @@ impl Prop for C24 {
         h
     }
     fn rule() -> String {
-        "one execution = one generated zone file (50% syntactically rich valid files: all supported types, directives, parentheses, comments, quoted strings, escapes, RFC 3597 generic RDATA, CRLF, missing final newline, fields around the 16 KiB buffer and 64 KiB field limits, names of 253..258 octets on the wire completed by the origin in force, as owner and in RDATA; 20% token soups; 30% byte-level mutations of valid files) parsed once from a fault-free one-shot stream and then under 3-8 fault plans (read sizes 1..16385, EINTR at chosen calls or for ever, EIO after k octets, torn after k octets, bit flips; for files <= 160 octets every cut point). Non-trivial = at least one fault plan; distinct = distinct (file, plans)".into()
+        "one execution = one generated zone file (50% syntactically rich valid files: all supported types, directives, parentheses, comments, quoted strings, escapes, RFC 3597 generic RDATA (also hex in groups and over parenthesised lines, lengths that disagree, odd digit counts, TYPE/CLASS numbers at and beyond 16 bits), TTLs at 2^31, 2^32 and beyond in both field orders, CRLF, missing final newline, fields around the 16 KiB buffer and 64 KiB field limits, names of 253..258 octets on the wire completed by the origin in force, as owner and in RDATA; 20% token soups; 30% byte-level mutations of valid files) parsed once from a fault-free one-shot stream and then under 3-8 fault plans (read sizes 1..16385, EINTR at chosen calls or for ever, EIO after k octets, torn after k octets, bit flips; for files <= 160 octets every cut point). Non-trivial = at least one fault plan; distinct = distinct (file, plans)".into()
     }
     fn assumptions() -> Vec<String> {
         vec![
